@@ -247,6 +247,10 @@ func (fr *frame) builtin(b *ssa.Builtin, c *ssa.CallCommon, instr ssa.Value, st 
 		}
 		return []T{acc}
 	}
+	if b.Name() == "close" {
+		fr.abstract("close of a channel (channels are not modelled)")
+		return []T{}
+	}
 	bail("unsupported builtin %s", b.Name())
 	return nil
 }
